@@ -26,6 +26,7 @@ import (
 	"sync"
 	"syscall"
 	"testing"
+	"testing/synctest"
 	"time"
 	"unicode/utf8"
 
@@ -65,6 +66,7 @@ type env struct {
 	dir     string
 	conn    driver.Conn
 	mtime   bool // file-system backends: opened with update_mtime=on (a Get also touches the file)
+	t       *testing.T
 }
 
 // once-per-run switches of the quick tier (package level: an env is made per history)
@@ -284,10 +286,23 @@ func (e *env) runSeq(id, tier string, nops int) {
 			}
 		}
 	}
+	// one LARGE value per backend and run (64 MiB and one byte: past every round buffer or limit size a reader might
+	// have): Get returns the bytes of the latest Set whatever their number
+	if !bigDone[e.backend] && e.backend != "mem" && !strings.HasPrefix(e.backend, "expapi") {
+		bigDone[e.backend] = true
+		v := bytes.Repeat([]byte("0123456789abcdef"), (64<<20)/16)
+		v = append(v, 'Z')
+		const k = "big-value"
+		e.emit("S\tSET\t%s\t%s\t%s", hx(k), valRepr(v), cls(e.conn.Set(k, v)))
+		got, err := e.conn.Get(k)
+		e.emit("S\tGET\t%s\t%s\t%s", hx(k), cls(err), valRepr(got))
+		e.emit("S\tDEL\t%s\t%s", hx(k), cls(e.conn.Delete(k)))
+	}
 	e.emit("E\t%s", id)
 }
 
 var longKeyDone bool
+var bigDone = map[string]bool{}
 
 /* ------------------------------- expapi ------------------------------- */
 
@@ -626,6 +641,30 @@ func (e *env) runEnc(id, tier string) {
 			}
 		}
 		e.emit("S\tSAMECT\t%s\t%t", hx(k), same)
+	}
+	// … also when the clock does not move between the two writes (a coarse clock, two writes in one tick): inside a
+	// synctest bubble time stands still, so a nonce derived from the time of day repeats
+	if e.t != nil {
+		synctest.Test(e.t, func(*testing.T) {
+			c2, err := fscache.Open("verif", fscache.WithBaseDir(e.dir), fscache.WithEncryption(encKey))
+			if err != nil {
+				return
+			}
+			const fk = "frozen"
+			v := bytes.Repeat([]byte("same-instant-value-"), 8)
+			_ = c2.Set(fk, v)
+			before := e.readAllFiles()
+			_ = c2.Set(fk, v)
+			after := e.readAllFiles()
+			same := false
+			for f, b := range before {
+				if a, ok := after[f]; ok && len(b) > 0 && bytes.Equal(a, b) && fileIsFor(root, f, before, after, fk) {
+					same = true
+				}
+			}
+			e.emit("S\tSAMECT\t%s\t%t", hx(fk), same)
+			_ = c2.Delete(fk)
+		})
 	}
 	// tampering: every single-byte modification of a small entry, truncations, extensions
 	k := "tamper"
@@ -997,6 +1036,24 @@ func (e *env) runCut(id string, self string, enc bool) {
 		}
 		e.emit("S\tKILL\t%s\t%d", res, len(got))
 	}
+	// a value past every plausible buffer or limit size (64 MiB and one byte), set and read back whole
+	{
+		bigv := append(bytes.Repeat([]byte("0123456789abcdef"), (64<<20)/16), 'Z')
+		_ = c.Delete("cut")
+		serr := c.Set("cut", bigv)
+		got, gerr := c.Get("cut")
+		res := "other"
+		switch {
+		case gerr != nil && errors.Is(gerr, driver.ErrNotExist):
+			res = "absent"
+		case gerr != nil:
+			res = "geterr"
+		case bytes.Equal(got, bigv):
+			res = "new"
+		}
+		e.emit("S\tCUT\t%d\t%d\t%t\t%t\t%s\t%d", 0, len(bigv), false, serr == nil, res, len(got))
+		_ = c.Delete("cut")
+	}
 	// a Set cut short by the backend's own operation timeout (WithTimeout / timeout=): a second handle on the same
 	// directory with a timeout far below what a large Set needs. Whatever that Set returns, a Get through the first
 	// handle returns the complete new value, or what was there before — never a part of the new value.
@@ -1253,7 +1310,7 @@ func TestVerif(t *testing.T) {
 		if err != nil {
 			t.Fatal(err)
 		}
-		e := &env{w: w, r: r, dir: dir}
+		e := &env{w: w, r: r, dir: dir, t: t}
 		id := fmt.Sprintf("%s-%d", prop, i+1)
 		switch prop {
 		case "C14":
